@@ -405,11 +405,10 @@ def rule_h(ctx: Ctx) -> None:
                 'atom must be conjoined with `pe.parent.max_occurs == 1` (truth table) under the same-parent guard.')
 
 
-def rule_i(ctx: Ctx) -> None:
+def rule_i(ctx: Ctx, rule: str = 'C15.i') -> None:
     """Sibling implementations of is_overlap (XSD 1.0 and 1.1 element particles): two element particles compete when they have the
     same name or when one can be substituted for the other through any number of substitution-group steps - in both directions;
     against a wildcard the members of the element's substitution group count too."""
-    rule = 'C15.i'
     n = 0
     for cq in ('xmlschema.validators.elements.XsdElement', 'xmlschema.validators.elements.Xsd11Element'):
         c = ctx.idx.cls(cq)
@@ -450,8 +449,13 @@ def rule_i(ctx: Ctx) -> None:
                    '' if ok else f'`{side}` is not consulted: only the direct substitution group is compared, so with n -> m -> h the model (ref h?, ref n) is accepted '
                    'although <n/> is attributable to both particles', key=f'{c.name}.is_overlap|closure|{side.split(".")[0]}')
         wl = [r for r in accept if ('isinstance(other, XsdAnyElement)', 'T') in guards(ctx, f, r)]
-        ok = len(wl) >= 2 and 'self.maps.substitution_groups.get(self.name, ())' in loops
-        ctx.ob(rule, f'{c.name}.is_overlap: against a wildcard the members of the substitution group count', f.loc(), ok, '', key=f'{c.name}.is_overlap|wildcard-members')
+        # the members are taken from the recursive closure (iter_substitutes), not from the direct group only
+        ok = len(wl) >= 2 and 'self.iter_substitutes()' in loops
+        direct_only = 'self.maps.substitution_groups.get(self.name, ())' in loops and 'self.iter_substitutes()' not in loops
+        ctx.ob(rule, f'{c.name}.is_overlap: against a wildcard the members of the (nested) substitution group count', f.loc(), ok,
+               '' if ok else ('only the direct members are tried: with m2 -> m1 -> head and sequence(any{0,1} notQName="head m1", head) the element particle gets no precedence '
+                              'for m2, the wildcard consumes <m2/> and the content is reported incomplete' if direct_only else 'the members of the substitution group are not tried'),
+               key=f'{c.name}.is_overlap|wildcard-members')
     ctx.floor(rule, 'is_overlap implementations of element particles', n, 2)
     # the closure really is transitive: iter_substitutes recurses
     for cq in ('xmlschema.validators.elements.XsdElement', 'xmlschema.validators.elements.Xsd11Element'):
@@ -459,7 +463,7 @@ def rule_i(ctx: Ctx) -> None:
         f = c.methods.get('iter_substitutes') or c.find_method('iter_substitutes')
         rec = [cl for cl in calls(f.node) if isinstance(cl.func, ast.Attribute) and cl.func.attr == 'iter_substitutes']
         ctx.ob(rule, f'{c.name}.iter_substitutes descends into the groups of the members', f.loc(), bool(rec), '', key=f'{c.name}.iter_substitutes|recursive')
-    ctx.explain('C15.i: sibling agreement of XsdElement.is_overlap and Xsd11Element.is_overlap: accepting returns of the element branch are conditioned on name equality and on '
+    ctx.explain(f'{rule}: sibling agreement of XsdElement.is_overlap and Xsd11Element.is_overlap: accepting returns of the element branch are conditioned on name equality and on '
                 'iter_substitutes() of both operands (the recursive closure).')
 
 
